@@ -157,311 +157,18 @@ def simp(t):
     return t
 
 
-def _run_fetch(fi: FuncInfo, rows_state, size=None):
-    m = CursorMachine(rows_state, size is not None)
-    if isinstance(fi.parent, ClassInfo):
-        m.siblings = {k: v for k, v in fi.parent.methods.items() if k.startswith('fetch') and v is not fi}
-    st = {}
-    for p in fi.params[1:]:
-        st[p] = size
-    ret = 'fallthrough'
-    try:
-        m.run(body_without_docstring(fi.node), st)
-    except finite.Return as r:
-        ret = r.value
-    return m, ret
 
 
-def rule_fetchsib(P) -> RuleResult:
-    res = RuleResult('R-FETCHSIB')
-    cur = P.cls(CU, 'Cursor')
-    want_empty = {'fetchone': None, 'fetchmany': (), 'fetchall': (), '__iter__': ()}
-    verified = set()
-    for name in ('fetchone', 'fetchmany', 'fetchall', '__iter__'):
-        fi = cur.methods.get(name)
-        if fi is None:
-            res.fail(f'{cur.fq}.{name}', 'fetchsib:missing', f'Cursor.{name} is missing', loc(cur))
-            continue
-        construct = fi.fq
-        n0 = len(res.findings)
-
-        def fail(detail, msg):
-            res.fail(construct, 'fetchsib:' + detail, f'Cursor.{name}: {msg}', loc(fi))
-        try:
-            # (c) before any execute, and when exhausted
-            for state, desc in ((None, 'before any execute'), ((), 'when the rows are exhausted')):
-                m, ret = _run_fetch(fi, state, None)
-                ret = simp(ret)
-                m.pos_incs = [simp(i) for i in m.pos_incs]
-                if name == '__iter__':
-                    if isinstance(ret, tuple) and ret and ret[0] == 'iter-delegate':
-                        continue
-                    if isinstance(ret, tuple) and ret and ret[0] == 'iter' and ret[1] in (((),), ((),)):
-                        continue
-                    if ret == 'fallthrough':
-                        continue       # generator form: judged below
-                    fail('empty', f'{desc} iteration must deliver nothing; returns {ret!r}')
-                    continue
-                if ret != want_empty[name]:
-                    fail('empty', f'{desc} the method must return {"None" if want_empty[name] is None else "an empty list"}; '
-                         f'returns {ret!r}')
-                if m.pos_incs and any(i != 0 for i in m.pos_incs):
-                    fail('empty-pos', f'{desc} the position counter moves by {m.pos_incs}')
-            # (a)/(b) on a non-empty buffer
-            sizes = [N, None] if name == 'fetchmany' else [None]
-            for size in sizes:
-                m, ret = _run_fetch(fi, B, size)
-                ret = simp(ret)
-                kept = simp(m.attrs['_rows'])
-                m.pos_incs = [simp(i) for i in m.pos_incs]
-                if isinstance(ret, tuple) and ret and ret[0] in ('delegate', 'iter-delegate'):
-                    continue      # iteration through a sibling that is judged in its own right
-                eff = N if size is not None else finite.Sym('arraysize')
-                if name == 'fetchone':
-                    if not (ret == ('item', B, 0) and kept == ('slice', B, 1, None)):
-                        fail('consume', f'must hand out the first buffered row and remove it from the buffer; hands out {ret!r}, keeps {kept!r}')
-                    if m.pos_incs != [1]:
-                        fail('count', f'must advance the position by 1; advances by {m.pos_incs or "nothing"}')
-                elif name == 'fetchmany':
-                    if ret != ('slice', B, None, eff):
-                        fail('deliver', f'must hand out the first n buffered rows; hands out {ret!r}')
-                    if kept != ('slice', B, eff, None):
-                        fail('consume', f'rows[:n] are handed out, so rows[n:] must be kept (same bound); keeps {kept!r}')
-                    if m.pos_incs != [('len', ('slice', B, None, eff))]:
-                        fail('count', f'must advance the position by the number of rows handed out; advances by {m.pos_incs or "nothing"}')
-                elif name == 'fetchall':
-                    if ret != B:
-                        fail('deliver', f'must hand out all buffered rows; hands out {ret!r}')
-                    if kept != ():
-                        fail('consume', f'the buffer must be empty afterwards; keeps {kept!r}')
-                    if m.pos_incs != [('len', B)]:
-                        fail('count', f'must advance the position by the number of rows handed out; advances by {m.pos_incs or "nothing"}')
-                else:  # __iter__
-                    if isinstance(ret, tuple) and ret and ret[0] == 'iter' and B in ret[1]:
-                        fail('consume', 'iterates over the buffer itself: rows delivered by iteration stay in the buffer (they are '
-                             'delivered again by the next fetch) and the position does not move')
-                    elif ret == 'fallthrough' and not any(e[0] == 'yield' for e in m.events):
-                        fail('consume', 'iteration form not understood and it does not fetch')
-        except AnalysisError as exc:
-            raise AnalysisError(f'{fi.fq}: {exc}') from exc
-        if len(res.findings) == n0:
-            verified.add(name)
-            res.ok({'method': name, 'cases': ['not executed', 'exhausted', 'non-empty buffer'],
-                    'delegates': [d[0] for d in _run_fetch(fi, B, N if name == 'fetchmany' else None)[0].delegated]})
-    # fetchmany default size is arraysize
-    fm = cur.methods.get('fetchmany')
-    if fm is not None and 'self.arraysize' not in unparse(fm.node):
-        res.fail(fm.fq, 'fetchsib:arraysize', 'fetchmany() without a size must use cursor.arraysize', loc(fm))
-    return res
 
 
-def _self_writes(fi):
-    out = set()
-    for n in ast.walk(fi.node):
-        tgt = None
-        if isinstance(n, ast.Assign):
-            tgt = n.targets
-        elif isinstance(n, ast.AugAssign):
-            tgt = [n.target]
-        for t in tgt or []:
-            if isinstance(t, ast.Attribute) and isinstance(t.value, ast.Name) and t.value.id == 'self':
-                out.add(t.attr)
-        if isinstance(n, ast.Call) and isinstance(n.func, ast.Attribute) and isinstance(n.func.value, ast.Attribute) \
-                and isinstance(n.func.value.value, ast.Name) and n.func.value.value.id == 'self' \
-                and n.func.attr in ('pop', 'append', 'clear', 'extend', 'remove', 'insert', 'sort'):
-            out.add(n.func.value.attr)
-    return out
 
 
-def _self_reads(fi):
-    return {n.attr for n in ast.walk(fi.node) if isinstance(n, ast.Attribute) and isinstance(n.value, ast.Name)
-            and n.value.id == 'self' and isinstance(n.ctx, ast.Load)}
 
 
-def rule_reset(P) -> RuleResult:
-    res = RuleResult('R-RESET')
-    cur = P.cls(CU, 'Cursor')
-    init, ex = cur.methods.get('__init__'), cur.methods.get('execute')
-    if init is None or ex is None:
-        raise AnalysisError('anchor vanished: Cursor.__init__ / execute')
-    state = _self_writes(init) - {'_context', 'arraysize'}
-    written = _self_writes(ex)
-    for a in sorted(state):
-        if a not in written:
-            res.fail(ex.fq, f'reset:{a}', f'a new execute() does not reset cursor state `{a}` (set in __init__): results of the '
-                     f'previous statement leak into the next', loc(ex))
-        else:
-            res.ok({'attribute': a, 'reset_by': 'execute'})
-    # _pos restarts at 0
-    for n in ast.walk(ex.node):
-        if isinstance(n, ast.Assign) and unparse(n.targets[0]) == 'self._pos':
-            if unparse(n.value) != '0':
-                res.fail(ex.fq, 'reset:_pos-value', f'rownumber must restart at 0, is set to `{unparse(n.value)}`', loc(ex, n))
-    # executemany funnels through execute
-    em = cur.methods.get('executemany')
-    if em is None or 'self.execute(' not in unparse(em.node):
-        res.fail(f'{cur.fq}.executemany', 'reset:executemany', 'executemany() must run each parameter set through execute()', loc(cur))
-    else:
-        res.ok({'method': 'executemany', 'via': 'execute'})
-    # description is None before execute
-    d = cur.methods.get('description')
-    for n in ast.walk(init.node):
-        if isinstance(n, ast.Assign) and unparse(n.targets[0]) == 'self._description' and not is_none(n.value):
-            res.fail(init.fq, 'reset:description', 'description must be None before any execute()', loc(init, n))
-    return res
 
 
-def rule_rowcount(P) -> RuleResult:
-    res = RuleResult('R-ROWCOUNT')
-    cur = P.cls(CU, 'Cursor')
-    rc = cur.methods.get('rowcount')
-    if rc is None:
-        raise AnalysisError('anchor vanished: Cursor.rowcount')
-    reads = _self_reads(rc)
-    if not reads:
-        raise AnalysisError('Cursor.rowcount reads no cursor state')
-    writers = {}
-    for name, fi in cur.methods.items():
-        for a in _self_writes(fi):
-            writers.setdefault(a, set()).add(name)
-    ok = True
-    for a in sorted(reads):
-        bad = sorted(writers.get(a, set()) - {'__init__', 'execute'})
-        if bad:
-            ok = False
-            res.fail(rc.fq, f'rowcount:{a}', f'rowcount is the number of rows the last execute produced, but it is computed from '
-                     f'`self.{a}`, which {", ".join(bad)} also modify: it changes as rows are fetched', loc(rc))
-    # -1 before any execute: evaluate on the __init__ state
-    init = cur.methods['__init__']
-    consts = {}
-    for n in ast.walk(init.node):
-        if isinstance(n, ast.Assign) and isinstance(n.targets[0], ast.Attribute):
-            try:
-                consts[n.targets[0].attr] = ast.literal_eval(n.value)
-            except (ValueError, SyntaxError):
-                pass
-    m = finite.Machine(expr=lambda e, st, mm: consts.get(e.attr, finite.Sym(unparse(e))) if isinstance(e, ast.Attribute) else NotImplemented,
-                       call=lambda e, st, mm: finite.Sym(unparse(e)))
-    try:
-        m.run(body_without_docstring(rc.node), {})
-        v = None
-    except finite.Return as r:
-        v = r.value
-    if v != -1:
-        ok = False
-        res.fail(rc.fq, 'rowcount:initial', f'rowcount must be -1 before any execute(); evaluates to {v!r} on a fresh cursor', loc(rc))
-    # execute stores the length of the very list it stores as the buffer
-    ex = cur.methods['execute']
-    if ok:
-        for a in reads:
-            for n in ast.walk(ex.node):
-                if isinstance(n, ast.Assign) and unparse(n.targets[0]) == f'self.{a}' and a != '_rows':
-                    rowsrc = [unparse(x.value) for x in ast.walk(ex.node) if isinstance(x, ast.Assign) and unparse(x.targets[0]) == 'self._rows']
-                    if not (rowsrc and unparse(n.value) == f'len({rowsrc[0]})'):
-                        ok = False
-                        res.fail(ex.fq, f'rowcount:source:{a}', f'`self.{a}` must be the number of result rows (len of the list stored '
-                                 f'as the buffer); it is `{unparse(n.value)}`', loc(ex, n))
-    if ok:
-        res.ok({'property': 'rowcount', 'reads': sorted(reads), 'writers': 'only __init__ and execute', 'initial': -1})
-    rn = cur.methods.get('rownumber')
-    if rn is None or _self_reads(rn) != {'_pos'}:
-        res.fail(f'{cur.fq}.rownumber', 'rowcount:rownumber', 'rownumber must be the position counter', loc(cur))
-    else:
-        res.ok({'property': 'rownumber', 'reads': ['_pos']})
-    return res
 
 
-def rule_column7(P) -> RuleResult:
-    res = RuleResult('R-COLUMN7')
-    col = P.cls(CU, 'Column')
-    v = col.attrs.get('_vars')
-    names = None
-    if v is not None:
-        for n in ast.walk(v):
-            if isinstance(n, ast.Constant) and isinstance(n.value, str) and ' ' in n.value:
-                names = n.value.split()
-    if names is None:
-        raise AnalysisError('Column._vars: the list of DB-API field names not found')
-    want = ['name', 'type_code', 'display_size', 'internal_size', 'precision', 'scale', 'null_ok']
-    if names != want:
-        res.fail(col.fq, 'column7:fields', f'a description entry is the 7-sequence {want}; found {names}', loc(col))
-    else:
-        res.ok({'fields': names})
-    ln = col.methods.get('__len__')
-    rets = [n for n in ast.walk(ln.node) if isinstance(n, ast.Return)] if ln else []
-    if not (len(rets) == 1 and isinstance(rets[0].value, ast.Constant) and rets[0].value.value == len(names)):
-        res.fail(f'{col.fq}.__len__', 'column7:len', f'len() of a description entry must be {len(names)}', loc(col))
-    else:
-        res.ok({'len': len(names)})
-    for i, nm in enumerate(names):
-        f = col.methods.get(nm)
-        if f is None or not any(unparse(d) == 'property' for d in f.node.decorator_list):
-            res.fail(f'{col.fq}.{nm}', 'column7:property', f'field {nm} is not a property of Column', loc(col))
-            continue
-        rets = [n for n in ast.walk(f.node) if isinstance(n, ast.Return)]
-        if i >= 2:
-            if not (len(rets) == 1 and is_none(rets[0].value)):
-                res.fail(f.fq, 'column7:none', f'{nm} must be None', loc(f))
-            else:
-                res.ok({'field': nm, 'value': None})
-        elif i == 0:
-            if not (len(rets) == 1 and unparse(rets[0].value) == 'self._name'):
-                res.fail(f.fq, 'column7:name', 'field 0 must be the column name', loc(f))
-            else:
-                res.ok({'field': nm})
-        else:
-            res.ok({'field': nm})
-    gi = col.methods.get('__getitem__')
-    if gi is None or 'slice' not in unparse(gi.node):
-        res.fail(f'{col.fq}.__getitem__', 'column7:slice', 'description entries must support slicing', loc(col))
-    else:
-        # execute both branches symbolically: an index gives the field, a slice the tuple of the fields in the slice
-        kp = gi.params[1]
-        problems = []
-        for is_slice in (False, True):
-            def callh(e, st, m):
-                f = unparse(e.func)
-                if f == 'tuple':
-                    return ('tuple', m.ev(e.args[0], st))
-                if f == 'self._vars':
-                    return ('called', 'self._vars')
-                if isinstance(e.func, ast.Subscript) or f == 'getter':
-                    return ('field-of', m.ev(e.func, st) if isinstance(e.func, ast.Subscript) else 'each')
-                return finite.Sym(f)
-            mach = finite.Machine(isinstance_=lambda v, c, _s=is_slice: _s if unparse(c) == 'slice' else False,
-                                  call=callh, names={'self': finite.Sym('self'), kp: finite.Sym('KEY')},
-                                  subscript=lambda e, st, m: ('getters', unparse(e.slice)) if unparse(e.value) == 'self._vars' else finite.Sym(unparse(e)),
-                                  expr=lambda e, st, m: finite.Sym(unparse(e)))
-            mach.comprehensions = True
-            try:
-                mach.run(body_without_docstring(gi.node), {})
-                got = None
-            except finite.Return as r:
-                got = r.value
-            except AnalysisError as exc:
-                problems.append(f'for a {"slice" if is_slice else "index"} it {exc}')
-                continue
-            want_inner = ('getters', kp)
-            ok = (got == ('field-of', want_inner)) if not is_slice else \
-                (isinstance(got, finite.Each) and got.value == ('field-of', 'each')
-                 and getattr(mach, 'last_iterated', None) == want_inner)
-            if is_slice and not ok and getattr(mach, 'last_iterated', None) == ('called', 'self._vars'):
-                problems.append('for a slice it calls the tuple of field getters instead of slicing it (TypeError)')
-                continue
-            if not ok:
-                problems.append(f'for a {"slice" if is_slice else "index"} it returns {got!r}')
-        if problems:
-            res.fail(gi.fq, 'column7:getitem', 'Column.__getitem__ must return the field for an index and the tuple of fields for a slice: '
-                     + '; '.join(problems), loc(gi))
-        else:
-            res.ok({'getitem': 'index and slice', 'cases': 2})
-    bases = [unparse(b) for b in col.node.bases]
-    if 'Sequence' not in bases:
-        res.fail(col.fq, 'column7:sequence', 'Column must be a Sequence (iteration, len, indexing)', loc(col))
-    eq = col.methods.get('__eq__')
-    if eq is None or 'tuple(self) == tuple(other)' not in unparse(eq.node):
-        res.info('Column.__eq__: comparison shape not recognised (not judged)')
-    return res
 
 
 def rule_modconst(P) -> RuleResult:
@@ -488,11 +195,31 @@ def rule_modconst(P) -> RuleResult:
                  f'paramstyle is {ps!r}')
     else:
         res.ok({'paramstyle': ps})
+    from ..symex import Sym as _S, T as _T, Engine as _E, show as _sh
     c = m.toplevel_funcs.get('connect')
-    if not c or 'Connection(' not in unparse(c[-1].node):
+    if not c:
         res.fail('beanquery:connect', 'modconst:connect', 'connect() must return a Connection')
     else:
-        res.ok({'connect': 'Connection'})
+        DSN, KW = _S('DSN'), _S('KEYWORDS')
+        cf = c[-1]
+        env = {cf.params[0]: DSN} if cf.params else {}
+        if cf.node.args.kwarg:
+            env[cf.node.args.kwarg.arg] = KW
+
+        def on_call_c(fn, fv, rc, args, kw, ex, node):
+            if str(fn).split('.')[-1] == 'Connection':
+                return _T('new', ('Connection', tuple(args), tuple(kw)))
+            return NotImplemented
+        good = True
+        for p in _E(P, on_call=on_call_c, max_depth=0).paths(cf, env):
+            v = p.value
+            if not (p.outcome == 'return' and isinstance(v, _T) and v.op == 'new' and v.args[0] == 'Connection' and v.args[1][:1] == (DSN,)
+                    and (not cf.node.args.kwarg or (None, KW) in v.args[2])):
+                good = False
+                res.fail('beanquery:connect', 'modconst:connect', f'connect(dsn, **kwargs) must return a new Connection for that data source and '
+                         f'those arguments; returns `{_sh(v)[:80]}`', loc(cf))
+        if good:
+            res.ok({'connect': 'Connection(dsn, **kwargs)'})
     conn = m.classes.get('Connection')
     for meth in ('close', 'cursor', 'execute'):
         if conn is None or meth not in conn.methods:
@@ -507,8 +234,33 @@ def rule_modconst(P) -> RuleResult:
             res.ok({'Cursor': meth})
     # arraysize defaults to 1
     init = cur.methods['__init__']
-    if 'self.arraysize = 1' not in unparse(init.node):
-        res.fail(init.fq, 'modconst:arraysize', 'cursor.arraysize must default to 1', loc(init))
-    else:
-        res.ok({'arraysize': 1})
+    CUR = _S('CURSOR')
+    SIZE = _T('attr', (CUR, 'arraysize'))
+    good = True
+    for p in _E(P, max_depth=2).paths(init, {'self': CUR}):
+        if p.heap.get(SIZE) != 1:
+            good = False
+            res.fail(init.fq, 'modconst:arraysize', f'cursor.arraysize must default to 1; a new cursor has `{_sh(p.heap.get(SIZE))}`', loc(init))
+    # it belongs to the application afterwards: executing a statement does not put it back
+    for meth in ('execute', 'executemany'):
+        fm_ = cur.methods.get(meth)
+        if fm_ is None:
+            continue
+
+        def on_call_e(fn, fv, rc, args, kw, ex, node):
+            last = str(fn).split('.')[-1]
+            if rc == CUR and last in cur.methods and last not in ('execute', 'executemany'):
+                return NotImplemented
+            if rc != CUR:
+                ex.events.append(('call', fn, args, kw))
+                return _S('R_' + last)
+            return NotImplemented
+        for p in _E(P, on_call=on_call_e, max_depth=2, max_paths=128).paths(fm_, {'self': CUR}):
+            st = [e for e in p.events if e[0] in ('store', 'aug') and e[1] == SIZE]
+            if st and good:
+                good = False
+                res.fail(fm_.fq, 'modconst:arraysize', f'cursor.arraysize is set by the application (default 1) and says how many rows '
+                         f'fetchmany() delivers: {meth}() puts it back to `{_sh(st[0][-1])}`', loc(fm_))
+    if good:
+        res.ok({'arraysize': 1, 'kept_across': ['execute', 'executemany']})
     return res
